@@ -43,7 +43,15 @@ pub struct Sizes {
     pub big: bool,
 }
 
+thread_local! {
+    /// when set, every text / binary field of the packets being generated gets exactly this length
+    pub static UNIFORM_LEN: std::cell::Cell<Option<usize>> = std::cell::Cell::new(None);
+}
+
 pub fn pick_len(rng: &mut Rng, sz: Sizes) -> usize {
+    if let Some(n) = UNIFORM_LEN.with(|u| u.get()) {
+        return n;
+    }
     let r = rng.below(100);
     if r < 70 {
         rng.below(12) as usize
@@ -776,7 +784,27 @@ pub fn sweep_v3(thorough: bool) -> Vec<v3::Packet> {
             out.push(Packet::Unsubscribe(Unsubscribe { pid: Pid::try_from(7).unwrap(), topics: (0..n).map(|_| TopicFilter::try_from("same/+".to_string()).unwrap()).collect() }));
         }
     }
+    // UNIFORM lengths: every text and binary field of a packet at the same length L at once (all fields
+    // at their 3.1 maxima, all at 127, all at 256, …), every packet type
+    let mut rng = Rng::new(0x5eed_0003);
+    for l in uniform_lengths(thorough) {
+        UNIFORM_LEN.with(|u| u.set(Some(l)));
+        for t in 0..V3_TYPES {
+            for _ in 0..2 {
+                out.push(gen_v3(&mut rng, t, Sizes { big: false }));
+            }
+        }
+        UNIFORM_LEN.with(|u| u.set(None));
+    }
     out
+}
+
+fn uniform_lengths(thorough: bool) -> Vec<usize> {
+    let mut v = vec![0usize, 1, 2, 3, 11, 12, 13, 22, 23, 24, 31, 32, 33, 63, 64, 65, 126, 127, 128, 129, 255, 256, 257];
+    if thorough {
+        v.extend([4, 5, 7, 8, 15, 16, 17, 47, 48, 95, 96, 191, 192, 511, 512, 513, 1023, 1024]);
+    }
+    v
 }
 
 pub fn sweep_v5(thorough: bool) -> Vec<v5::Packet> {
@@ -810,6 +838,51 @@ pub fn sweep_v5(thorough: bool) -> Vec<v5::Packet> {
             properties: DisconnectProperties { reason_string: Some(Arc::new(t.clone())), user_properties: vec![UserProperty { name: Arc::new("k".into()), value: Arc::new(t) }], ..Default::default() },
         }));
     }
+    // PROPERTY-SECTION widths for EVERY property struct (each has its own macro arm): user properties adding
+    // up to exactly 126…129 and 16,382…16,385 bytes at each of the 14 property-carrying positions
+    {
+        let users_of = |total: usize| -> Vec<UserProperty> {
+            let mut out = Vec::new();
+            let mut left = total;
+            while left >= 5 {
+                let take = left.min(5 + 200 + 4000);
+                let rest = left - take;
+                let take = if rest > 0 && rest < 5 { take - 5 } else { take };
+                let pl = take - 5;
+                let a = pl.min(200);
+                out.push(UserProperty { name: Arc::new("n".repeat(a)), value: Arc::new("v".repeat(pl - a)) });
+                left -= take;
+            }
+            out
+        };
+        let pid = Pid::try_from(11).unwrap();
+        for total in [126usize, 127, 128, 129, 16_382, 16_383, 16_384, 16_385] {
+            let up = users_of(total);
+            out.push(Packet::Connect(Connect { protocol: Protocol::V500, clean_start: true, keep_alive: 5, properties: ConnectProperties { user_properties: up.clone(), ..Default::default() }, client_id: Arc::new("c".into()), last_will: None, username: None, password: None }));
+            out.push(Packet::Connect(Connect {
+                protocol: Protocol::V500,
+                clean_start: true,
+                keep_alive: 5,
+                properties: Default::default(),
+                client_id: Arc::new("c".into()),
+                last_will: Some(LastWill { qos: QoS::Level1, retain: false, topic_name: name(2), payload: Bytes::from(vec![1u8, 2]), properties: WillProperties { user_properties: up.clone(), ..Default::default() } }),
+                username: None,
+                password: None,
+            }));
+            out.push(Packet::Connack(Connack { session_present: false, reason_code: ConnectReasonCode::Success, properties: ConnackProperties { user_properties: up.clone(), ..Default::default() } }));
+            out.push(Packet::Publish(Publish { dup: false, retain: false, qos_pid: QosPid::Level1(pid), topic_name: name(2), payload: Bytes::from(vec![9u8; 3]), properties: PublishProperties { user_properties: up.clone(), ..Default::default() } }));
+            out.push(Packet::Puback(Puback { pid, reason_code: PubackReasonCode::Success, properties: PubackProperties { reason_string: None, user_properties: up.clone() } }));
+            out.push(Packet::Pubrec(Pubrec { pid, reason_code: PubrecReasonCode::Success, properties: PubrecProperties { reason_string: None, user_properties: up.clone() } }));
+            out.push(Packet::Pubrel(Pubrel { pid, reason_code: PubrelReasonCode::Success, properties: PubrelProperties { reason_string: None, user_properties: up.clone() } }));
+            out.push(Packet::Pubcomp(Pubcomp { pid, reason_code: PubcompReasonCode::Success, properties: PubcompProperties { reason_string: None, user_properties: up.clone() } }));
+            out.push(Packet::Subscribe(Subscribe { pid, properties: SubscribeProperties { subscription_id: None, user_properties: up.clone() }, topics: vec![(TopicFilter::try_from("a".to_string()).unwrap(), SubscriptionOptions::new(QoS::Level0))] }));
+            out.push(Packet::Suback(Suback { pid, properties: SubackProperties { reason_string: None, user_properties: up.clone() }, topics: vec![SubscribeReasonCode::GrantedQoS1] }));
+            out.push(Packet::Unsubscribe(Unsubscribe { pid, properties: UnsubscribeProperties { user_properties: up.clone() }, topics: vec![TopicFilter::try_from("a".to_string()).unwrap()] }));
+            out.push(Packet::Unsuback(Unsuback { pid, properties: UnsubackProperties { reason_string: None, user_properties: up.clone() }, topics: vec![UnsubscribeReasonCode::Success] }));
+            out.push(Packet::Disconnect(Disconnect { reason_code: DisconnectReasonCode::NormalDisconnect, properties: DisconnectProperties { user_properties: up.clone(), ..Default::default() } }));
+            out.push(Packet::Auth(Auth { reason_code: AuthReasonCode::Success, properties: AuthProperties { user_properties: up, ..Default::default() } }));
+        }
+    }
     // ALIASING: the same Arc<String> allocation used for several fields / elements (what an application does
     // when it clones one name into many user properties); equal by value to the unaliased packet
     {
@@ -842,6 +915,16 @@ pub fn sweep_v5(thorough: bool) -> Vec<v5::Packet> {
             out.push(Packet::Subscribe(Subscribe { pid: Pid::try_from(6).unwrap(), properties: Default::default(), topics: (0..n).map(|i| (TopicFilter::try_from(format!("a/{}", i % 7)).unwrap(), SubscriptionOptions::new(QoS::Level2))).collect() }));
             out.push(Packet::Unsubscribe(Unsubscribe { pid: Pid::try_from(7).unwrap(), properties: Default::default(), topics: (0..n).map(|_| TopicFilter::try_from("same/+".to_string()).unwrap()).collect() }));
         }
+    }
+    let mut rng = Rng::new(0x5eed_0005);
+    for l in uniform_lengths(thorough) {
+        UNIFORM_LEN.with(|u| u.set(Some(l)));
+        for t in 0..V5_TYPES {
+            for pmode in [1u8, 0] {
+                out.push(gen_v5(&mut rng, t, Sizes { big: false }, pmode, l + t));
+            }
+        }
+        UNIFORM_LEN.with(|u| u.set(None));
     }
     out
 }
